@@ -185,6 +185,19 @@ def check(case, ctx):
     got = must_return(f"Grid.{case['op']}", fn, da, spell_axis(case["op_axes"], case["axis_spelling"]), **kw)
     compare(got, exp, exp_dims, "result vs reference model", case)
 
+    # the pre-defined 1-D grid ufunc of xgcm.gridops called directly (rule and fill value spelled out per call)
+    if len(case["op_axes"]) == 1:
+        from xgcm import gridops
+
+        n1 = case["op_axes"][0]
+        uf = getattr(gridops, f"{case['op']}_{case['data_pos'][n1]}_to_{targets[n1]}", None)
+        if uf is not None:
+            direct = must_return(f"gridops.{case['op']}_{case['data_pos'][n1]}_to_{targets[n1]}", uf, grid, da, axis=[(n1,)],
+                                 boundary={n1: rules[n1]}, fill_value={n1: fills[n1]})
+            if set(direct.dims) != set(exp_dims):
+                raise Violation("pre-defined grid ufunc called directly: dims differ", got=list(direct.dims), expected=list(exp_dims))
+            compare(direct.transpose(*exp_dims), exp, exp_dims, "pre-defined grid ufunc called directly vs reference model", case)
+
     # omitting `to` == naming the documented default
     if case["to"] is None:
         c2 = dict(case, to_spelling="dict")
